@@ -33,7 +33,7 @@ def named_fn(arg, f, hook=None, tag=None):
 
 
 GRAPHS = ["lin_s", "lin_d_s", "gmrf_d_s", "lmrf_d", "two_lik", "nonlin", "xz_s", "laplace_b", "mean_m", "cmrf_d",
-          "lognormal", "lognormal_cov_s", "lin_sqrtprecF", "reg_d", "lin_geom", "sigdep_x", "direct_param", "cov_sd", "selfnamed", "cov_sdt"]   # ("reg_s" is buildable but RegularizedGaussian has no log-density: not a C01/C11 graph)
+          "lognormal", "lognormal_cov_s", "lin_sqrtprecF", "reg_d", "lin_geom", "sigdep_x", "direct_param", "cov_sd", "selfnamed", "cov_sdt", "lin_step"]   # ("reg_s" is buildable but RegularizedGaussian has no log-density: not a C01/C11 graph)
 
 
 def _lg(r, cov):
@@ -181,6 +181,18 @@ def build(rec, hook=None):
         dens = [y, x, s]
         vals = {"y": ydata, "x": xval, "s": pos()}
         out["models"]["A"] = M
+    elif g == "lin_step":
+        # the unknown lives on a geometry whose parameter-to-function map is not the identity (n step heights -> 3n nodes);
+        # model and prior carry equal but distinct geometry objects
+        from cuqi.geometry import StepExpansion
+        s = Gamma(1.0, 0.1, name="s")
+        A3 = rs.randn(m, 3 * n)
+        x = Gaussian(np.zeros(n), 0.8, geometry=StepExpansion(np.linspace(0, 1, 3 * n), n_steps=n), name="x")
+        M = LinearModel(A3, domain_geometry=StepExpansion(np.linspace(0, 1, 3 * n), n_steps=n), range_geometry=m)
+        y = Gaussian(M(x), cov=inv("s", "y.cov"), name="y")
+        dens = [y, x, s]
+        vals = {"y": ydata, "x": xval, "s": pos()}
+        out["models"]["A"] = M
     elif g == "cov_sd":
         # one callable with TWO hyper-parameter arguments, which may be fixed in separate steps (functools.partial path)
         s = Gamma(1.0, 0.1, name="s")
@@ -251,7 +263,10 @@ def build(rec, hook=None):
         raise ValueError(g)
     # closed forms written out by the harness for the all-Gaussian/Gamma graphs: the reference for the complete assignment
     # that does not pass through any library conditioning code
-    if g == "lin_s":
+    if g == "lin_step":
+        out["closed_form"] = lambda v: (_lg(v["y"] - A3 @ np.repeat(np.asarray(v["x"], float), 3), 1 / v["s"]) + _lg(v["x"], 0.8)
+                                        + _lgam(v["s"], 1.0, 0.1))
+    elif g == "lin_s":
         out["closed_form"] = lambda v: _lg(v["y"] - A @ v["x"], 1 / v["s"]) + _lg(v["x"], 0.8) + _lgam(v["s"], 1.0, 0.1)
     elif g == "lin_d_s":
         out["closed_form"] = lambda v: (_lg(v["y"] - A @ v["x"], 1 / v["s"]) + _lg(v["x"], 1 / v["d"])
